@@ -109,7 +109,7 @@ def run(rep: vk.Report):
     def sources():
         for f in fixed:
             yield None, f[0], list(f[1])
-        for g, e in common.corpus(rng, rep.tier, 0, focus_profile="all", focus_scale=0.6, pool_kwargs={"with_matrices": False}):
+        for g, e in common.corpus(rng, rep.tier, 0, focus_profile="all", pool_kwargs={"with_matrices": False}):
             yield g, e, None
         for _ in range(n):
             r0 = random.Random(rng.random())
@@ -160,6 +160,8 @@ def run(rep: vk.Report):
                         param_updates += 1
             ppts = {nm: float(p.value) for nm, p in params.items() if np.ndim(p.value) == 0}
             pt = common.pick_point(r, names)
+            if rnd == 1 and r.random() < 0.4:
+                pt = {nm: float(r.choice([1, 2, 3, -1, -2, 4])) for nm in names}       # an integer-valued point
             x = np.array([pt[nm] for nm in names], dtype=float)
             with np.errstate(all="ignore"), warnings.catch_warnings():
                 warnings.simplefilter("ignore")
@@ -171,6 +173,19 @@ def run(rep: vk.Report):
                     continue
             if not ok or M.shape != (len(names), len(names)) or not np.all(np.isfinite(M)):
                 continue
+            if np.all(x == np.round(x)):
+                # the same integer-valued point handed over as an integer array: NumPy may refuse (negative integer powers), but a
+                # matrix that comes back must be the same matrix
+                with np.errstate(all="ignore"), warnings.catch_warnings():
+                    warnings.simplefilter("ignore")
+                    try:
+                        Mi = np.asarray(hf(x.astype(np.int64)), dtype=float)
+                    except Exception:
+                        Mi = None
+                if Mi is not None and np.all(np.isfinite(Mi)) and not np.allclose(Mi, M, rtol=1e-9, atol=1e-12):
+                    rep.violation({"kind": "numeric", "obligation": "the compiled Hessian at a point does not depend on the array's integer / floating dtype",
+                                   "witness": {"expr": repr(e)[:300], "V": names, "point": pt, "float_point": M.tolist(), "int64_point": Mi.tolist(),
+                                               "path": hf.__name__}}, concrete=True)
             if not np.array_equal(M, M.T):
                 asym += 1
                 rep.violation({"kind": "symmetry", "obligation": "compiled Hessian is symmetric", "witness": {"expr": repr(e)[:300], "V": names,
